@@ -79,47 +79,57 @@ fn do_call(g: &mut pickle_fuzzer::Generator, c: u8, x: &[u8], y: &[u8]) -> (i64,
 
 pub fn reuse(args: &[String]) -> i32 {
     let spec: ReuseSpec = serde_json::from_str(&std::fs::read_to_string(&args[0]).unwrap()).unwrap();
-    let mut out = std::io::BufWriter::new(std::fs::File::create(&args[1]).unwrap());
     std::panic::set_hook(Box::new(|_| {}));
-    for (ci, cfg) in spec.cfgs.iter().enumerate() {
-        // fresh twins
-        let mut fresh = Vec::new();
-        for c in 1..=3u8 {
-            let mut g = build_generator(cfg, Some(spec.seed));
-            let (res, d, n) = do_call(&mut g, c, &spec.x, &spec.y);
-            fresh.push(json!([res, d, n]));
-        }
-        writeln!(out, "{}", json!({"t": "fresh", "cfg": ci, "P": cfg.p, "res": fresh, "seq": [], "calls": []})).unwrap();
-        // every call sequence up to maxlen
-        let mut seqs: Vec<Vec<u8>> = vec![vec![]];
-        for _ in 0..spec.maxlen {
-            let mut next = Vec::new();
-            for s in &seqs {
-                for c in 1..=4u8 {
-                    let mut t = s.clone();
-                    t.push(c);
-                    next.push(t);
-                }
-            }
-            for s in &next {
-                let mut g = build_generator(cfg, Some(spec.seed));
-                let mut calls = Vec::new();
-                verif::start_recording(false);
-                for &c in s {
+    // one worker per configuration (the recorder is thread-local)
+    let chunks: Vec<Vec<String>> = std::thread::scope(|sc| {
+        let hs: Vec<_> = spec.cfgs.iter().enumerate().map(|(ci, cfg)| {
+            let spec = &spec;
+            sc.spawn(move || {
+                let mut out: Vec<String> = Vec::new();
+                // fresh twins
+                let mut fresh = Vec::new();
+                for c in 1..=3u8 {
+                    let mut g = build_generator(cfg, Some(spec.seed));
                     let (res, d, n) = do_call(&mut g, c, &spec.x, &spec.y);
-                    calls.push(json!([res, d, n]));
+                    fresh.push(json!([res, d, n]));
                 }
-                // entry state seen by the hook at the start of every generation call
-                let begins: Vec<Value> = verif::stop_recording()
-                    .iter()
-                    .filter(|e| e.phase == "begin")
-                    .map(|e| json!([e.out_len, e.pushed.len() + e.kept, e.memo_len, if e.proto_emitted {1} else {0}]))
-                    .collect();
-                writeln!(out, "{}", json!({"t": "seq", "cfg": ci, "P": cfg.p, "seq": s, "calls": calls, "res": [], "begins": begins})).unwrap();
-            }
-            seqs = next;
-        }
-    }
+                out.push(json!({"t": "fresh", "cfg": ci, "P": cfg.p, "res": fresh, "seq": [], "calls": []}).to_string());
+                // every call sequence up to maxlen
+                let mut seqs: Vec<Vec<u8>> = vec![vec![]];
+                for _ in 0..spec.maxlen {
+                    let mut next = Vec::new();
+                    for s in &seqs {
+                        for c in 1..=4u8 {
+                            let mut t = s.clone();
+                            t.push(c);
+                            next.push(t);
+                        }
+                    }
+                    for s in &next {
+                        let mut g = build_generator(cfg, Some(spec.seed));
+                        let mut calls = Vec::new();
+                        verif::start_recording(false);
+                        for &c in s {
+                            let (res, d, n) = do_call(&mut g, c, &spec.x, &spec.y);
+                            calls.push(json!([res, d, n]));
+                        }
+                        // entry state seen by the hook at the start of every generation call
+                        let begins: Vec<Value> = verif::stop_recording()
+                            .iter()
+                            .filter(|e| e.phase == "begin")
+                            .map(|e| json!([e.out_len, e.pushed.len() + e.kept, e.memo_len, if e.proto_emitted {1} else {0}]))
+                            .collect();
+                        out.push(json!({"t": "seq", "cfg": ci, "P": cfg.p, "seq": s, "calls": calls, "res": [], "begins": begins}).to_string());
+                    }
+                    seqs = next;
+                }
+                out
+            })
+        }).collect();
+        hs.into_iter().map(|h| h.join().unwrap()).collect()
+    });
+    let mut out = std::io::BufWriter::new(std::fs::File::create(&args[1]).unwrap());
+    for c in chunks { for l in c { writeln!(out, "{}", l).unwrap(); } }
     0
 }
 
